@@ -92,6 +92,18 @@ pub fn check_case(c: &Case) -> Verdict {
     v.class(format!("last-{:?}-{}", last.cmd.sub, if last.via_cli { "cli" } else { "lib" }));
     v.class(format!("history-len-{}", c.steps.len()));
     {
+        let scale = match last.cmd.sub { Sub::Min => (if last.cmd.w == 0 { last.cmd.m } else { last.cmd.w }) as usize, Sub::Cgr => 1, _ => last.cmd.k as usize };
+        let nothing = last.recs.iter().all(|r| {
+            let mut run = 0usize;
+            let mut best = 0usize;
+            for &b in &r.seq.0 {
+                if crate::model::is_base(b) { run += 1; best = best.max(run); } else { run = 0; }
+            }
+            best < scale.max(1)
+        });
+        v.class_if(nothing, "last-run-has-nothing-to-compute");
+    }
+    {
         let n = c.steps.len();
         let same_path_earlier = c.steps[..n - 1].iter().any(|s| s.slot == last.slot);
         v.class_if(same_path_earlier, "input-path-used-before");
@@ -173,7 +185,10 @@ fn step_strategy(tier: Tier, dir_based: bool) -> BoxedStrategy<Step> {
                 _ => cmd.k as usize,
             };
             let p = RecParams { max_records: tier.pick(12, 40), scale, max_len: tier.pick(120, 300), degenerate_w: 1, bounds: [scale, 0, 0], nuc_only: cmd.sub == Sub::Cgr };
-            (prop_oneof![2 => gen::records(p), 1 => gen::records_related(p)], gen::records(p), 0u8..=1, any::<bool>()).prop_map(move |(recs, alt, slot, keep_mtime)| Step { cmd: cmd.clone(), recs, alt, via_cli, chunks, slot, keep_mtime })
+            // a fifth of the steps read (mostly) degenerate records: a run that has nothing to compute must still
+            // replace what an earlier run left at the location
+            let pd = RecParams { degenerate_w: 7, max_records: 6, ..p };
+            (prop_oneof![5 => gen::records(p), 2 => gen::records_related(p), 2 => gen::records(pd), 1 => Just(Vec::new())], gen::records(p), 0u8..=1, any::<bool>()).prop_map(move |(recs, alt, slot, keep_mtime)| Step { cmd: cmd.clone(), recs, alt, via_cli, chunks, slot, keep_mtime })
         })
         .boxed()
 }
